@@ -20,7 +20,7 @@ On break: harness `oracle` states the property's clauses in Go directly on the r
 import os
 
 THEOREMS = ["IstioModel.C20.Theorems"]
-STREAMS = ("rules", "env", "sem", "packets")
+STREAMS = ("rules", "env", "cmd", "sem", "packets")
 
 
 def _case_at(ctx, ops, i):
@@ -48,6 +48,8 @@ def _clause_class(cfg_line, verdict):
             cls.append("v6")
         if f[0] == "envcfg":
             cls.append("env")
+        if f[0] == "cmdcfg":
+            cls.append("cmd")
     pk = ""
     for x in t[2:]:
         if x.startswith("packet=p_"):
@@ -65,12 +67,13 @@ def oracle(ctx, stream, case_lines, rep):
     with open(p, "w") as f:
         f.write("\n".join(case_lines) + "\n")
     cands.append(p)
-    for st in STREAMS:
-        g = os.path.join(ctx.work, "%s.gen.ops" % st)
-        if os.path.exists(g):
-            cands.append(g)
+    if not getattr(ctx, "replay_only", False):   # a replay judges the replayed case alone, never leftover generated files
+        for st in STREAMS:
+            g = os.path.join(ctx.work, "%s.gen.ops" % st)
+            if os.path.exists(g):
+                cands.append(g)
     for ops in cands:
-        st = "rules" if os.path.basename(ops).split(".")[0] in ("rules", "env") else "packets"
+        st = "rules" if os.path.basename(ops).split(".")[0] in ("rules", "env", "cmd") else "packets"
         out = ops + ".verdict"
         rc, log = ctx.harness("oracle", st, ops, out)
         if rc != 0 or not os.path.exists(out):
@@ -78,7 +81,7 @@ def oracle(ctx, stream, case_lines, rep):
         for i, v in enumerate(ctx.read_lines(out)):
             if v.startswith("FAIL"):
                 case = _case_at(ctx, ops, i)
-                cfg = next((l for l in case if l.startswith("cfg") or l.startswith("envcfg")), "")
+                cfg = next((l for l in case if l.split(" ", 1)[0] in ("cfg", "envcfg", "cmdcfg")), "")
                 return ("c20:" + _clause_class(cfg, v),
                         "the real istio-iptables code violates clause '%s' (oracle on the real output)" % v.split()[1],
                         {"stream": st, "ops": case, "oracle_verdict": v, "correspondence": rep})
@@ -95,16 +98,20 @@ def _oracle_all(ctx):
             if not os.path.exists(g):
                 continue
             out = os.path.join(ctx.work, os.path.basename(g) + ".verdict")
-            rc, log = ctx.harness("oracle", "rules" if st in ("rules", "env") else "packets", g, out)
+            rc, log = ctx.harness("oracle", "rules" if st in ("rules", "env", "cmd") else "packets", g, out)
             if rc != 0 or not os.path.exists(out):
                 ctx.tie_broken("oracle-run:" + st, log)
                 continue
             verdicts = ctx.read_lines(out)
             ctx.count("oracle.%s.cases" % st, len(verdicts))
+            if os.path.exists(out + ".stats"):   # how often each clause's antecedent held
+                for l in ctx.read_lines(out + ".stats"):
+                    k, n = l.split()
+                    ctx.count("oracle.clause." + k, int(n))
             for i, v in enumerate(verdicts):
                 if v.startswith("FAIL"):
                     case = _case_at(ctx, g, i)
-                    cfg = next((l for l in case if l.startswith("cfg") or l.startswith("envcfg")), "")
+                    cfg = next((l for l in case if l.split(" ", 1)[0] in ("cfg", "envcfg", "cmdcfg")), "")
                     ctx.violation("c20:" + _clause_class(cfg, v),
                                   "the real istio-iptables code violates clause '%s' (oracle on the real output)" % v.split()[1],
                                   {"stream": st, "ops": case, "oracle_verdict": v}, True)
@@ -347,8 +354,20 @@ def run(ctx):
         "(no 'eth+' wildcards, no numeric aliases of names); ports and marks are canonical decimal numerals",
         "CONNMARK state across packets of a connection, the TPROXY policy routing (ip rule / ip route) and the nftables backend are not modelled",
     ]
+    ctx.assumptions += [
+        "host inputs of FillConfigFromEnvironment (/etc/resolv.conf, /etc/passwd, interface addresses) are synthetic per case in a private "
+        "mount namespace when the harness may unshare one, otherwise observed on the machine - 'cannot be read' included - and recorded in the case",
+        "the oracle's delivery_loop clause excludes the two registered known-finding classes (c20:gid-dns53-delivery-loop, "
+        "c20:loopback-included-delivery-loop); they are reproduced separately on every run",
+        "in TPROXY mode the proxy does not run under the FIRST configured proxy identity (injection template: uid 0 / gid 1337): nat cannot "
+        "see marks, so a first-identity packet carrying the TPROXY mark is indistinguishable from the legitimate call-to-self",
+    ]
     ctx.trusted.append("harness/c20/interp.go: Go reference netfilter interpreter and the Go statement of the property (oracle)")
     ctx.trusted.append("tools/istio-iptables/pkg/cmd/zz_verif_c20.go (verif-tagged accessor for bindCmdlineFlags)")
+    ctx.trusted.append("harness/c20/sim.go: the stateful in-memory iptables / iptables-save / iptables-restore of the apply stream")
+    ctx.trusted.append("harness/c20/real.go `contract` (literal flag / shorthand / environment-variable names) and packets.go `intended()` / "
+                       "`mustRefuse()` (the documented meaning of an invocation, written independently of tools/common/config)")
+    ctx.trusted.append("harness/c20/probe.py (live kernel probe, optional) and harness/c20/host.go (private mount namespace for /etc)")
     proved = ctx.lean_prove(THEOREMS)
     if not ctx.build_drv():
         return
@@ -356,6 +375,7 @@ def run(ctx):
         return
     ctx.diff_stream("rules", ctx.n(3000, 40000), oracle=oracle, nontrivial=_nontrivial)
     ctx.diff_stream("env", ctx.n(1500, 20000), oracle=oracle, nontrivial=_nontrivial)
+    ctx.diff_stream("cmd", ctx.n(400, 4000), oracle=oracle, nontrivial=lambda o, r: len(r) > 1 and (r[1].startswith("ok") or r[1] == "refused"))
     ctx.diff_stream("sem", ctx.n(2000, 25000), oracle=oracle, nontrivial=_nontrivial)
     ctx.diff_stream("packets", ctx.n(4000, 60000), oracle=oracle, nontrivial=_nontrivial)
     _oracle_all(ctx)
@@ -373,6 +393,35 @@ def run(ctx):
                     ctx.count("%s.fate.%s" % (st, kind))
                 elif l in ("drop", "loop"):
                     ctx.count("%s.fate.%s" % (st, l))
+    for st in ("rules", "env", "cmd"):
+        impl = os.path.join(ctx.work, "%s.run.impl" % st)
+        ops_ = os.path.join(ctx.work, "%s.gen.ops" % st)
+        if os.path.exists(impl) and os.path.exists(ops_):
+            o_, m_ = ctx.read_lines(ops_), ctx.read_lines(impl)
+            for i, l in enumerate(o_):
+                w = l.split(" ", 1)[0]
+                if w in ("cfg", "envcfg", "cmdcfg") and i < len(m_):
+                    ctx.count("%s.status.%s" % (st, m_[i].split()[0].split("%")[0]))
+                if w in ("envcfg", "cmdcfg"):
+                    f = l.split()
+                    via = f[-1]
+                    ctx.count("%s.host.%s" % (st, "synthetic-namespace" if "ns=1" in via else "observed"))
+                    ctx.count("%s.resolvconf.%s" % (st, "unreadable" if f[26] == "!" else ("empty" if f[26] == "-" else "servers")))
+                    ctx.count("%s.dualstack.%s" % (st, f[27]))
+                    for part in via.split(","):
+                        part = part.replace("%3D", "=").replace("%3A", ":")
+                        if "=" in part and not part.startswith(("raw:", "pw:", "decoy:", "user=", "binary=")):
+                            ctx.count("%s.source.%s" % (st, part.split("=", 1)[1] if part.split("=", 1)[0] not in ("ns", "skip", "addrerr", "dryrun") else part.split("=", 1)[0]))
+                        elif part.startswith(("raw:", "decoy:", "empty:", "binary=")):
+                            ctx.count("%s.source.%s" % (st, part.split(":", 1)[0].split("=", 1)[0]))
+    aops = os.path.join(ctx.work, "apply.gen.ops")
+    if os.path.exists(aops):
+        for l in ctx.read_lines(aops):
+            if l.startswith("apply "):
+                f = l.split()
+                ctx.count("apply.prior." + f[1])
+                ctx.count("apply.flags.reconcile%s-cleanup%s-force%s" % (f[3], f[4], f[5]))
+                ctx.count("apply.detection." + f[6])
     ops = os.path.join(ctx.work, "rules.gen.ops")
     if os.path.exists(ops):
         for l in ctx.read_lines(ops):
@@ -380,7 +429,8 @@ def run(ctx):
                 f = l.split()
                 ctx.count("rules.cfg.mode." + ("tproxy" if f[6] == "TPROXY" else "redirect"))
                 ctx.count("rules.cfg.ipv6." + f[21])
-                ctx.count("rules.cfg.dns." + f[18])
+                ctx.count("rules.cfg.redirect-dns-flag." + f[18])
+                ctx.count("rules.cfg.dns-capture-effective." + ("1" if f[18] == "1" and (f[20] == "1" or f[22] != "-" or f[23] != "-") else "0"))
                 ctx.count("rules.cfg.include." + ("wildcard" if f[14] == "*" else ("none" if f[14] == "~" else "cidrs")))
                 ctx.count("rules.cfg.inbound." + ("wildcard" if f[8] == "*" else ("none" if f[8] == "~" else "ports")))
                 ctx.count("rules.cfg.kubevirt." + ("0" if f[16] == "~" else "1"))
@@ -389,6 +439,7 @@ def run(ctx):
 
 def replay(ctx, path):
     import json
+    ctx.replay_only = True
     obj = json.load(open(path))
     rep = obj.get("replay", {})
     ops = rep.get("ops") or (rep.get("extra") or {}).get("ops")
@@ -440,8 +491,9 @@ MANIFEST = {
                    "routing, nftables backend not modelled; FillConfigFromEnvironment is modelled (RawConfig.fill, getLocalIsV6) with the host's "
                    "passwd / resolv.conf content as observed inputs. Recorded corners (kube-virt traffic ignores outbound exclusions / is captured twice in TPROXY mode, DNS port 53 on lo, "
                    "inbound excludes ignored with an explicit list, 2nd proxy UID shadowed, GID block lacks the DNS variant, TPROXY "
-                   "mode does not exempt the tunnel port) are proved as witnesses and replayed on the real rule text; none is a defect "
-                   "fixed or listed."),
+                   "mode does not exempt the tunnel port) are proved as witnesses and replayed on the real rule text. Two GENUINE delivery loops "
+                   "(c20:gid-dns53-delivery-loop, c20:loopback-included-delivery-loop; not fixable without editing golden files) are "
+                   "registered as known findings and reproduced on every run."),
     "technique": "Lean 4 compiler-correctness theorems (capture configuration -> iptables rules -> netfilter semantics) + differential correspondence with the real Go compiler",
     "design_ref": "DESIGN.md section 5 C20",
 }
